@@ -457,5 +457,40 @@ def aux_c12(tier, seed):
 AUX["C12"] = aux_c12
 FLOORS["C12"] = {"drop_orders_enumerated": 72, "evaluations": 5000, "distinct_nontrivial": 100}
 
+# ----------------------------------------------------------------------------------------------
+prop("C06", level="exploration",
+     title="Aligned 1/2/4/8-byte guest accesses are never torn",
+     technique="three layered monitors: (1) cfg-guarded trace hook in the byte-copy helper - for every transfer the recorded primitive accesses must tile the transfer once, ascending, aligned to their width on both sides, and an aligned 1/2/4/8-byte transfer must be exactly one access of that width, never a bulk copy; complete grid over length x guest alignment x local alignment x entry point; (2) valgrind lackey memory trace of a probe binary: between marker stores exactly one machine access of width n to the guest location; (3) black-box writer/reader tearing detector; atomic store/load round trip and refusal of every misaligned offset",
+     rule="cases = transfers. Hook grid (complete): n in 0..12 x guest address mod 8 x local address mod 8 x 27 entry points (write/read/write_slice/read_slice at slice, region and guest level; copy_from/copy_to<u8> on slices and array refs; read_volatile_from(&[u8]), read_exact_volatile_from(Cursor), write_volatile_to(&mut [u8]), write_all_volatile_to(Vec); guest read_exact_volatile_from) + write_obj/read_obj of u8,u16,u32,u64,i32,usize at 8 guest alignments x 3 levels. Lackey: 17 entry points x {u8,u16,u32,u64} x 3 offsets on the release (quick) and debug+release (thorough) binaries. Tearing: u16/u32/u64 x {slice, region, guest} x 2*10^5 (quick) / 2*10^6 (thorough) reads each. Atomics: 6 types x 24 offsets x 3 orderings + guest level. distinct key = (entry point, direction, n, guest mod 8, local mod 8, judged-single | tiling); all non-trivial",
+     exhaustive_note="hook grid: every (n <= 12, guest mod 8, local mod 8) for every entry point that funnels into the copy helper",
+     assumptions=["on x86-64 a single mov of width n is the observable; a change that keeps one machine access but drops `volatile` at the language level is observationally identical (stated in DESIGN.md §9)", "transfers that straddle two mappings and guest addresses whose host address is not aligned are not in the judged class", "whole-object forms: the local value's address is taken from the trace (it is naturally aligned by construction)"],
+     level_text="Hook-level oracle over a completely enumerated alignment grid, cross-checked at machine level (lackey) and by a concurrent tearing detector; held-on-observed.",
+     level_note="The hook sees what the helper decides; lackey sees what the binary does; neither can see the language-level `volatile` qualifier.",
+     design_ref="DESIGN.md §7 C06")
+
+
+@plan("C06")
+def plan_c06(tier, seed):
+    if tier == "quick":
+        return [Run("std-debug", "c06", ["seed=%d" % seed, "tear=200000"], timeout=600, crash_is_violation=True),
+                Run("std-release", "c06", ["seed=%d" % seed, "tear=400000"], timeout=600, crash_is_violation=True)]
+    return [Run("std-debug", "c06", ["seed=%d" % seed, "tear=2000000"], timeout=3000, crash_is_violation=True),
+            Run("std-release", "c06", ["seed=%d" % seed, "tear=4000000"], timeout=3000, crash_is_violation=True),
+            Run("xen-debug", "c06", ["seed=%d" % seed, "tear=400000"], timeout=3000, crash_is_violation=True)]
+
+
+def aux_c06(tier, seed):
+    cov, viols, inc = {}, [], []
+    for variant in (("std-release",) if tier == "quick" else ("std-release", "std-debug")):
+        c, v, i = core.lackey_probe(variant)
+        cov.update(c)
+        viols += v
+        inc += i
+    return cov, viols, inc
+
+
+AUX["C06"] = aux_c06
+FLOORS["C06"] = {"judged_single_access_transfers": 3000, "tearing_reads": 1_000_000, "distinct_nontrivial": 10_000}
+
 # properties that are (currently) not claimed, with the reason recorded in MANIFEST.json
 NOT_CLAIMED = {}
